@@ -21,7 +21,12 @@ NEAR = {
 }
 
 
+INF = {"float32": [float("inf"), float("-inf"), 1.0], "float64": [float("inf"), float("-inf"), 1.0]}
+
+
 def letters(dtype, small=False):
+    if small == "inf" and dtype in INF:
+        return INF[dtype]
     if small == "near":
         return NEAR[dtype]
     if small and dtype != "bool":
